@@ -19,6 +19,7 @@ import (
 	"verif.local/harness/hx"
 	"verif.local/harness/px"
 	"verif.local/vrt"
+	"verif.local/vrt/vctx"
 )
 
 const (
@@ -110,6 +111,11 @@ type cfg struct {
 	script   []wop
 	prologue bool // deterministic start-up
 	bounds   []int
+	// gate: with when=update-inputs, the first reconciles (which call UpdateInputs) are held back until the
+	// deterministic start-up is over, so that the controllers add their inputs concurrently with each other
+	// and with the writer, inside the explored part
+	gate bool
+	hb   bool // happens-before pruning (shared harness state is declared in body)
 }
 
 // observation of one controller
@@ -164,12 +170,13 @@ func scenario(c cfg) explore.Scenario {
 		Name:   c.name,
 		Desc:   fmt.Sprintf("%d %s(s) with inputs %v (declared %s, cached=%v), pre-existing %v, external writer script %v; at exact quiescence the last reconcile of every controller must have started after every relevant commit and must have read the final state", c.nCtrl, fl, ins, c.when, c.cached, c.pre, c.script),
 		Bounds: c.bounds,
+		HB:     c.hb,
 		Body:   func(x *explore.X) { body(c, x) },
 	}
 }
 
 func body(c cfg, x *explore.X) {
-	ctx, cancel := context.WithCancel(context.Background())
+	ctx, cancel := vctx.WithCancel(context.Background())
 	log := &hx.Log{}
 	st := state.WrapCore(hx.NewNamespaced(log))
 	for _, op := range c.pre {
@@ -188,6 +195,7 @@ func body(c cfg, x *explore.X) {
 		ctrlInputs = append(ctrlInputs, i.input())
 	}
 	var observations []*obs
+	gate := make(chan struct{})
 	register := func(i int) {
 		o := &obs{name: fmt.Sprintf("c%d", i), lastStart: -1, qStart: map[string]int{}, qRead: map[string]string{}, mapStart: map[string][]int{}}
 		observations = append(observations, o)
@@ -197,6 +205,7 @@ func body(c cfg, x *explore.X) {
 				start := log.Len()
 				vrt.Yield() // busy time
 				res, err := r.Get(ctx, p)
+				vrt.TouchKey("c05.obs", true)
 				o.n++
 				o.qStart[p.ID()] = start
 				if err != nil {
@@ -207,6 +216,7 @@ func body(c cfg, x *explore.X) {
 				return nil
 			}
 			qp.OnMap = func(_ context.Context, _ controller.QRuntime, md controller.ReducedResourceMetadata) ([]resource.Pointer, error) {
+				vrt.TouchKey("c05.obs", true)
 				o.mapStart[md.ID()] = append(o.mapStart[md.ID()], log.Len())
 				vrt.Yield()
 				return []resource.Pointer{hx.IntPtr("a"), hx.IntPtr("b")}, nil
@@ -228,6 +238,9 @@ func body(c cfg, x *explore.X) {
 		p.OnEvent = func(ctx context.Context, r controller.Runtime, n int) error {
 			if !declared {
 				declared = true
+				if c.gate {
+					vrt.Recv1(gate)
+				}
 				if err := r.UpdateInputs(append([]controller.Input(nil), ctrlInputs...)); err != nil {
 					panic(err)
 				}
@@ -235,6 +248,7 @@ func body(c cfg, x *explore.X) {
 			start := log.Len()
 			vrt.Yield() // busy time between the wake-up and the reads
 			o.lastRead = readInputs(ctx, r, c.inputs)
+			vrt.TouchKey("c05.obs", true)
 			o.lastStart = start
 			o.n++
 			return nil
@@ -267,6 +281,9 @@ func body(c cfg, x *explore.X) {
 		vrt.WaitQuiescent()
 		vrt.Branching(true)
 	}
+	if c.gate {
+		vrt.Close(gate)
+	}
 	base := log.Len()
 	for _, op := range c.script {
 		vrt.Yield()
@@ -280,6 +297,7 @@ func body(c cfg, x *explore.X) {
 		}
 		vrt.FireNextTimer()
 	}
+	vrt.TouchKey("c05.obs", true)
 	check(c, x, log, st, observations, base)
 	vrt.Branching(false)
 	log.Frozen = true
@@ -297,7 +315,17 @@ func destroyReady(r resource.Resource) bool {
 func check(c cfg, x *explore.X, log *hx.Log, st state.State, observations []*obs, base int) {
 	ctx := context.Background()
 	n := log.Len()
-	final := log.StateAt(n)
+	// the final state is what the store holds (what a reconcile would read now), not the folded commit log
+	final := map[string]resource.Resource{}
+	for _, typ := range []resource.Type{tInt, tStr} {
+		l, err := st.List(ctx, resource.NewMetadata(hx.NS, typ, "", resource.VersionUndefined))
+		if err != nil {
+			panic(err)
+		}
+		for _, r := range l.Items {
+			final[string(typ)+"/"+string(r.Metadata().ID())] = r
+		}
+	}
 	var sig []string
 	for _, o := range observations {
 		if c.q {
@@ -423,9 +451,10 @@ func checkQ(c cfg, x *explore.X, log *hx.Log, final map[string]resource.Resource
 func build(tier string) []explore.Scenario {
 	w, s, dr := controller.InputWeak, controller.InputStrong, controller.InputDestroyReady
 	qp, qm, qmd := controller.InputQPrimary, controller.InputQMapped, controller.InputQMappedDestroyReady
-	b0, b1 := []int{0}, []int{0, 1}
+	// with happens-before pruning (8.4) the bounds are one higher than the plain search could afford
+	b0, b1 := []int{0, 1}, []int{0, 1, 2}
 	if tier == "thorough" {
-		b0, b1 = []int{0, 1}, []int{0, 1, 2}
+		b0, b1 = []int{0, 1, 2}, []int{0, 1, 2, 3}
 	}
 	pre := []wop{"create a"}
 	var cs []cfg
@@ -436,6 +465,7 @@ func build(tier string) []explore.Scenario {
 		if c.when == "" {
 			c.when = "before-run"
 		}
+		c.hb = true
 		cs = append(cs, c)
 	}
 	// plain controllers
@@ -450,6 +480,7 @@ func build(tier string) []explore.Scenario {
 	add(cfg{name: "weak-kind+destroy-ready-id-b/update-a", inputs: []inSpec{{tInt, "", w}, {tInt, "b", dr}}, pre: []wop{"create a", "create b"}, script: []wop{"update a"}, prologue: true, bounds: b0})
 	add(cfg{name: "weak-kind/after-run", inputs: []inSpec{{tInt, "", w}}, when: "after-run", pre: pre, script: []wop{"update a", "update a"}, prologue: true, bounds: b0})
 	add(cfg{name: "weak-kind/update-inputs", inputs: []inSpec{{tInt, "", w}}, when: "update-inputs", pre: pre, script: []wop{"update a", "create b"}, prologue: true, bounds: b0})
+	add(cfg{name: "weak-kind/update-inputs/2controllers-concurrent", inputs: []inSpec{{tInt, "", w}}, nCtrl: 2, when: "update-inputs", gate: true, script: []wop{"create b"}, prologue: true, bounds: []int{0, 1}})
 	add(cfg{name: "weak-kind/shrink-inputs", inputs: []inSpec{{tInt, "", w}}, when: "shrink-inputs", pre: pre, script: []wop{"update a", "create b"}, prologue: true, bounds: b0})
 	add(cfg{name: "weak-kind/startup-race", inputs: []inSpec{{tInt, "", w}}, pre: pre, script: []wop{"update a"}, prologue: false, bounds: b0})
 	add(cfg{name: "weak-kind/startup-race/cached", inputs: []inSpec{{tInt, "", w}}, cached: true, pre: pre, script: []wop{"update a"}, prologue: false, bounds: b0})
@@ -463,9 +494,9 @@ func build(tier string) []explore.Scenario {
 	add(cfg{name: "q-primary+mapped-destroy-ready", q: true, inputs: []inSpec{{tInt, "", qp}, {tStr, "", qmd}}, pre: []wop{"create a", "create b", "create m1"}, script: []wop{"teardown m1"}, prologue: true, bounds: b0})
 	add(cfg{name: "q-primary/after-run", q: true, inputs: []inSpec{{tInt, "", qp}}, when: "after-run", pre: pre, script: []wop{"update a"}, prologue: true, bounds: b0})
 	if tier == "thorough" {
-		add(cfg{name: "weak-kind/3updates", inputs: []inSpec{{tInt, "", w}}, pre: pre, script: []wop{"update a", "create b", "update a"}, prologue: true, bounds: []int{0, 1}})
-		add(cfg{name: "strong-kind/2controllers/3ops", inputs: []inSpec{{tInt, "", s}}, nCtrl: 2, pre: pre, script: []wop{"update a", "create b", "destroy a"}, prologue: true, bounds: []int{0}})
-		add(cfg{name: "q-primary/3ops", q: true, inputs: []inSpec{{tInt, "", qp}}, pre: pre, script: []wop{"update a", "create b", "update a"}, prologue: true, bounds: []int{0, 1}})
+		add(cfg{name: "weak-kind/3updates", inputs: []inSpec{{tInt, "", w}}, pre: pre, script: []wop{"update a", "create b", "update a"}, prologue: true, bounds: []int{0, 1, 2}})
+		add(cfg{name: "strong-kind/2controllers/3ops", inputs: []inSpec{{tInt, "", s}}, nCtrl: 2, pre: pre, script: []wop{"update a", "create b", "destroy a"}, prologue: true, bounds: []int{0, 1}})
+		add(cfg{name: "q-primary/3ops", q: true, inputs: []inSpec{{tInt, "", qp}}, pre: pre, script: []wop{"update a", "create b", "update a"}, prologue: true, bounds: []int{0, 1, 2}})
 	}
 	var out []explore.Scenario
 	for _, c := range cs {
